@@ -160,3 +160,5 @@ func VerifUnprotect()            {}
 // producer goroutine behaves (receives `budget` values, then cancels); natively
 // the real goroutines run and this is a no-op.
 func VerifConsumerScript(budget int, cancels bool) {}
+
+func VerifTempName(base string) string { return "/ghost/" + base }
